@@ -20,6 +20,34 @@ import (
 // The actual gaps are measured; a gap that scheduling pushed into the
 // unspecified 60-120 s band makes that session inconclusive.
 func c16Realtime(r *vlib.Run) {
+	c16RealtimeCore(1, time.Minute, r.Violation0, r.Inconclusive, r.Set)
+}
+
+func init() {
+	// quick tier: the same run against a build in which only the constant
+	// staleDataCleanupInterval is overlaid with 2 s (go build -overlay), so the
+	// wiring of ticker and cut-off in Auditd.Read is exercised in ~6 s.
+	childEntries["c16rt"] = func(args []string) {
+		_, _, _, _, out, _ := childArgs(args)
+		defer out.finish()
+		out.begin(0, "scaled real-time run")
+		c16RealtimeCore(30, 2*time.Second,
+			func(sig, what string, wit any) { out.violation(sig+":scaled-2s", what, wit) },
+			out.inconclusive,
+			func(k string, v any) {
+				if k == "realtime_sessions" {
+					out.sample(map[string]any{"scaled_interval_s": 2, "sessions": v})
+					out.add("scaled_realtime_sessions", len(v.([]any)))
+					out.class("scaled-rt-a")
+					out.class("scaled-rt-b")
+				}
+			})
+	}
+}
+
+// c16RealtimeCore: div scales the timeline (1 = real minute, 30 = 2 s interval);
+// interval is the cleanup interval the build under test uses.
+func c16RealtimeCore(div int, interval time.Duration, violation func(sig, what string, wit any), inconclusive func(string), set func(string, any)) {
 	type half struct {
 		at    time.Duration
 		login bool
@@ -32,13 +60,17 @@ func c16Realtime(r *vlib.Run) {
 	}
 	ss := []sess{
 		{"A1 record T+35 login T+85", 35 * time.Second, 85 * time.Second, true},
-		{"A2 login T+40 record T+95", 95 * time.Second, 40 * time.Second, true},
+		{"A2 login T+40 record T+90", 90 * time.Second, 40 * time.Second, true},
 		{"A3 record T+58 login T+62", 58 * time.Second, 62 * time.Second, true},
 		{"A4 record T+118 login T+123", 118 * time.Second, 123 * time.Second, true},
 		{"B1 record T+1 login T+150", 1 * time.Second, 150 * time.Second, false},
 		{"B2 record T+5 login T+131", 5 * time.Second, 131 * time.Second, false},
 		{"C1 login T+1 record T+150", 150 * time.Second, 1 * time.Second, false},
 		{"C2 login T+20 record T+145", 145 * time.Second, 20 * time.Second, false},
+	}
+	for k := range ss {
+		ss[k].recAt /= time.Duration(div)
+		ss[k].logAt /= time.Duration(div)
 	}
 	var hs []half
 	for k, s := range ss {
@@ -64,7 +96,7 @@ func c16Realtime(r *vlib.Run) {
 			select {
 			case logins <- common.RemoteUserLogin{Source: identityEvent(h.k, pid, time.Now().UTC()), PID: pid, CredUserID: "c"}:
 			case err := <-done:
-				r.Inconclusive(fmt.Sprint("C16 real-time: Read returned early: ", err))
+				inconclusive(fmt.Sprint("C16 real-time: Read returned early: ", err))
 				return
 			}
 			actual[h.k][1] = time.Since(t0)
@@ -74,7 +106,7 @@ func c16Realtime(r *vlib.Run) {
 				select {
 				case audits <- l:
 				case err := <-done:
-					r.Inconclusive(fmt.Sprint("C16 real-time: Read returned early: ", err))
+					inconclusive(fmt.Sprint("C16 real-time: Read returned early: ", err))
 					return
 				}
 			}
@@ -95,6 +127,9 @@ func c16Realtime(r *vlib.Run) {
 		per[c.Ev.Metadata.AuditID]++
 	}
 	var rows []any
+	// the harness stamps an arrival when its send completes, a little after the
+	// correlator took its own reading: keep 5 % of the interval as a guard band
+	margin := interval / 20
 	for k, s := range ss {
 		gap := actual[k][0] - actual[k][1]
 		if gap < 0 {
@@ -103,14 +138,14 @@ func c16Realtime(r *vlib.Run) {
 		emitted := per[strconv.Itoa(5000+k)]
 		rows = append(rows, map[string]any{"session": s.name, "measured_gap_s": gap.Seconds(), "events_emitted": emitted})
 		switch {
-		case gap > 60*time.Second && gap < 120*time.Second:
-			r.Inconclusive(fmt.Sprintf("C16 real-time %s: measured gap %.1fs fell into the unspecified 60-120 s band", s.name, gap.Seconds()))
-		case s.mustCorrelate && gap <= 60*time.Second && emitted != 2:
-			r.Violation("C16:realtime:not-correlated-within-a-minute", fmt.Sprintf("%s: halves %.1fs apart, %d of 2 events emitted", s.name, gap.Seconds(), emitted), map[string]any{"session": s.name})
-		case !s.mustCorrelate && gap >= 120*time.Second && emitted != 0:
-			r.Violation("C16:realtime:correlated-after-two-minutes", fmt.Sprintf("%s: halves %.1fs apart, %d held events were emitted late", s.name, gap.Seconds(), emitted), map[string]any{"session": s.name})
+		case gap > interval-margin && gap < 2*interval+margin:
+			inconclusive(fmt.Sprintf("C16 real-time %s: measured gap %.2fs fell into the unspecified band between one and two cleanup intervals (%v)", s.name, gap.Seconds(), interval))
+		case s.mustCorrelate && gap <= interval-margin && emitted != 2:
+			violation("C16:realtime:not-correlated-within-one-interval", fmt.Sprintf("%s (timeline /%d): halves %.2fs apart with a %v cleanup interval, %d of 2 events emitted", s.name, div, gap.Seconds(), interval, emitted), map[string]any{"session": s.name})
+		case !s.mustCorrelate && gap >= 2*interval+margin && emitted != 0:
+			violation("C16:realtime:correlated-after-two-intervals", fmt.Sprintf("%s (timeline /%d): halves %.2fs apart with a %v cleanup interval, %d held events were emitted late", s.name, div, gap.Seconds(), interval, emitted), map[string]any{"session": s.name})
 		}
 	}
-	r.Set("realtime_sessions", rows)
-	r.Set("realtime_wall_s", time.Since(t0).Seconds())
+	set("realtime_sessions", rows)
+	set("realtime_wall_s", time.Since(t0).Seconds())
 }
